@@ -9,15 +9,24 @@
 (*  - MechRefines: the finished read returned the table.  The pinned scanner      *)
 (*    violates it; MechRefinesModHazards says that it does so only on the named   *)
 (*    hazards, and Reader = "fixed" meets MechRefines.                            *)
+(*  - The delimiter is a dimension of the space: DelimsFor(F, t) - a subset of    *)
+(*    TCQuantDelims chosen per table (all of them, or a covering subset spread by *)
+(*    a hash of the table) - is exported with every table (field `delims`) and,   *)
+(*    with DelimRun = "plan", run through the mechanism, whose writer prints the  *)
+(*    separator through the printf model of TextCodec.tla.  Writer = "fmt" (the   *)
+(*    separator inside the print format) is the deviating variant: it breaks the  *)
+(*    round trip exactly for the percent sign (FmtWriterCharacterised).           *)
 EXTENDS TextCodec, Json
 
 CONSTANTS Fams,         \* names of the bounded families to explore (fields of FamDefs)
           DClasses,     \* delimiter classes run through the mechanism
           Reader,       \* "pinned" | "fixed"
+          Writer,       \* "arg" (records.cpp) | "fmt" (separator inside the print format)
+          DelimRun,     \* "classes": one delimiter per class (',' tab space) | "plan": DelimsFor(family, table)
           DoExport      \* TRUE: print every table as JSON
 
-VARIABLES phase, fam, lay, t, dc, txt, pos, ri, fi, cur, acc, res
-vars == <<phase, fam, lay, t, dc, txt, pos, ri, fi, cur, acc, res>>
+VARIABLES phase, fam, lay, t, dc, dcd, txt, pos, ri, fi, cur, acc, res
+vars == <<phase, fam, lay, t, dc, dcd, txt, pos, ri, fi, cur, acc, res>>
 
 \* ---- the bounded families ---------------------------------------------------------
 \* A family: layouts of 1..MaxFields fields over Types x Shapes with at most MaxRowEl
@@ -30,7 +39,12 @@ AllInt   == {"min", "m1", "z", "p1", "max"}
 AllFlt   == {"nan", "pinf", "ninf", "pz", "nz", "fa", "fb"}
 Base == [Types |-> {"i4", "S1"}, Shapes |-> {"s"}, MaxFields |-> 2, MaxRowEl |-> 4, MaxRows |-> 2, Cap |-> 700,
          Filter |-> "any", IntToks |-> {"p1"}, UIntToks |-> {"z", "p1", "max"}, FltToks |-> {"nan", "fa"},
-         Chars |-> {"sp", "dl", "x"}, ExhW |-> 3]
+         Chars |-> {"sp", "dl", "x"}, ExhW |-> 3,
+         \* delimiters of a table: DAlways and DCount more of TCQuantDelims, spread by the table's hash
+         DAlways |-> {9, 32}, DCount |-> 2]
+Thor == [Base EXCEPT !.DAlways = {9, 32, 44}, !.DCount = 3]
+AllDelims == Cardinality(TCQuantDelims)
+ShapeFlt == {"fs", "fl", "fz", "fi", "fd", "fx"}
 FamDefs == [
   \* ---- quick tier
   q_adj2    |-> [Base EXCEPT !.Types = {"i4", "S1", "S2"}],
@@ -45,22 +59,43 @@ FamDefs == [
   q_widths  |-> [Base EXCEPT !.Types = {"i4", "S12"}, !.Filter = "adj", !.Cap = 200],
   \* embedded NUL bytes inside a fixed-width string (a value like b'a\0b'; numpy strips only trailing NULs)
   q_nul     |-> [Base EXCEPT !.Types = {"i4", "S2", "S3"}, !.Chars = {"nul", "x"}, !.MaxRows = 1, !.Cap = 300, !.Filter = "adj"],
+  \* the delimiter dimension: an adjacency-exhaustive family (number/string next to number/string, scalar and
+  \* sub-array, one and two rows, strings with the delimiter in them), each table with a covering subset ...
+  q_delim   |-> [Base EXCEPT !.Types = {"i4", "f8", "S1", "S2"}, !.Shapes = {"s", "v2"}, !.MaxRowEl = 3, !.Cap = 40,
+                             !.IntToks = {"min"}, !.FltToks = {"nan", "fl"}, !.DAlways = {}, !.DCount = 8],
+  \* ... and every numeric type (its own print and scan format), two values in a row, with every delimiter
+  q_dtype   |-> [Base EXCEPT !.Types = NumTypes, !.Shapes = {"v2"}, !.MaxFields = 1, !.MaxRows = 1, !.Cap = 10, !.Filter = "num",
+                             !.IntToks = {"min", "max"}, !.UIntToks = {"z", "max"}, !.FltToks = {"ninf", "fl"},
+                             !.DAlways = {}, !.DCount = AllDelims],
+  \* the text shapes of finite floats (shortest, longest, fixed notation, integral, subnormal, largest) and -0
+  q_fshape  |-> [Base EXCEPT !.Types = {"f4", "f8", "S1"}, !.Shapes = {"s", "v2"}, !.MaxRowEl = 3, !.Cap = 50,
+                             !.FltToks = ShapeFlt \cup {"nz"}],
   \* ---- thorough tier
-  t_adj2    |-> [Base EXCEPT !.Types = {"i4", "S1", "S2", "S3"}, !.IntToks = {"p1", "min"}, !.Cap = 1700],
-  t_adj2x   |-> [Base EXCEPT !.Types = {"i4", "f8", "S1", "S2"}, !.Cap = 1300, !.Chars = {"sp", "dl", "tb", "x", "1"}],
-  t_adj3    |-> [Base EXCEPT !.Types = {"i4", "S1", "S2"}, !.MaxFields = 3],
-  t_rows3   |-> [Base EXCEPT !.MaxRows = 3, !.Cap = 600, !.IntToks = {"p1", "min"}],
-  t_arr     |-> [Base EXCEPT !.Types = {"i4", "f8", "S1", "S2"}, !.Shapes = {"s", "v2", "m22"}, !.MaxRowEl = 5],
-  t_types   |-> [Base EXCEPT !.Types = NumTypes, !.Shapes = {"s", "v2", "v3"}, !.MaxFields = 1, !.MaxRows = 3, !.Filter = "num",
+  t_adj2    |-> [Thor EXCEPT !.Types = {"i4", "S1", "S2", "S3"}, !.IntToks = {"p1", "min"}, !.Cap = 1700],
+  t_adj2x   |-> [Thor EXCEPT !.Types = {"i4", "f8", "S1", "S2"}, !.Cap = 1300, !.Chars = {"sp", "dl", "tb", "x", "1"}],
+  t_adj3    |-> [Thor EXCEPT !.Types = {"i4", "S1", "S2"}, !.MaxFields = 3],
+  t_rows3   |-> [Thor EXCEPT !.MaxRows = 3, !.Cap = 600, !.IntToks = {"p1", "min"}],
+  t_arr     |-> [Thor EXCEPT !.Types = {"i4", "f8", "S1", "S2"}, !.Shapes = {"s", "v2", "m22"}, !.MaxRowEl = 5],
+  t_types   |-> [Thor EXCEPT !.Types = NumTypes, !.Shapes = {"s", "v2", "v3"}, !.MaxFields = 1, !.MaxRows = 3, !.Filter = "num",
                              !.IntToks = AllInt, !.FltToks = AllFlt],
-  t_types22 |-> [Base EXCEPT !.Types = NumTypes, !.Shapes = {"m22", "m23"}, !.MaxFields = 1, !.MaxRowEl = 6, !.MaxRows = 1, !.Cap = 800,
+  t_types22 |-> [Thor EXCEPT !.Types = NumTypes, !.Shapes = {"m22", "m23"}, !.MaxFields = 1, !.MaxRowEl = 6, !.MaxRows = 1, !.Cap = 800,
                              !.Filter = "num", !.IntToks = {"min", "z", "max"}, !.UIntToks = {"z", "max"},
                              !.FltToks = {"nan", "ninf", "nz", "fa"}],
-  t_numpair |-> [Base EXCEPT !.Types = NumTypes, !.Cap = 90, !.Filter = "num",
+  t_numpair |-> [Thor EXCEPT !.Types = NumTypes, !.Cap = 90, !.Filter = "num",
                              !.IntToks = {"min", "m1", "max"}, !.UIntToks = {"z", "max"}, !.FltToks = {"nan", "ninf", "fb"}],
-  t_widths  |-> [Base EXCEPT !.Types = {"i4", "S4", "S5", "S6", "S7", "S8", "S9", "S10", "S11", "S12"}, !.Filter = "adj", !.Cap = 200],
-  t_widths3 |-> [Base EXCEPT !.Types = {"f4", "S5", "S12"}, !.MaxFields = 3, !.Filter = "adj", !.Cap = 150, !.FltToks = {"fa"}],
-  t_nul     |-> [Base EXCEPT !.Types = {"i4", "S2", "S3"}, !.Shapes = {"s", "v2"}, !.Chars = {"nul", "x", "sp", "dl"}, !.Cap = 900]
+  t_widths  |-> [Thor EXCEPT !.Types = {"i4", "S4", "S5", "S6", "S7", "S8", "S9", "S10", "S11", "S12"}, !.Filter = "adj", !.Cap = 200],
+  t_widths3 |-> [Thor EXCEPT !.Types = {"f4", "S5", "S12"}, !.MaxFields = 3, !.Filter = "adj", !.Cap = 150, !.FltToks = {"fa"}],
+  t_nul     |-> [Thor EXCEPT !.Types = {"i4", "S2", "S3"}, !.Shapes = {"s", "v2"}, !.Chars = {"nul", "x", "sp", "dl"}, !.Cap = 900],
+  \* every table of the adjacency-exhaustive delimiter family with EVERY quantified delimiter (the other thorough
+  \* families: tab, space, comma and three more spread by the hash)
+  t_delim   |-> [Thor EXCEPT !.Types = {"i4", "f8", "S1", "S2"}, !.Shapes = {"s", "v2"}, !.MaxRowEl = 3, !.Cap = 60,
+                             !.IntToks = {"min"}, !.FltToks = {"nan", "fl"}, !.DAlways = {}, !.DCount = AllDelims],
+  \* every pair of numeric types (and every type as a two-element sub-array) with every quantified delimiter
+  t_dtype   |-> [Thor EXCEPT !.Types = NumTypes, !.Shapes = {"s", "v2"}, !.MaxRowEl = 2, !.MaxRows = 1, !.Cap = 4, !.Filter = "num",
+                             !.IntToks = {"min"}, !.UIntToks = {"max"}, !.FltToks = {"ninf", "fl"},
+                             !.DAlways = {}, !.DCount = AllDelims],
+  t_fshape  |-> [Thor EXCEPT !.Types = {"f4", "f8", "S1"}, !.Shapes = {"s", "v2", "v3"}, !.MaxRowEl = 4, !.Cap = 350,
+                             !.FltToks = ShapeFlt \cup {"nz", "nan"}]
 ]
 
 Names == <<"a", "b", "c", "d">>
@@ -99,7 +134,33 @@ LayoutOK(F, l) == /\ RowEl(l) <= F.MaxRowEl /\ RowCard(F, l) <= F.Cap
                        [] F.Filter = "num" -> \A i \in 1..Len(l) : ~TCIsStr(l[i])
                        [] OTHER -> TRUE
 
-Init == /\ phase = "start" /\ fam = "none" /\ lay = <<>> /\ t = NoTable /\ dc = "none" /\ txt = <<>> /\ pos = 0
+\* ---- which delimiters a table is written with -----------------------------------------
+\* A covering design chosen by the model, not by the harness: the DCount delimiters of a table are
+\* taken from the sorted sequence of TCQuantDelims at a stride coprime to its length, starting at a
+\* hash of the table (so that the tables of a family spread evenly over the delimiters; the adapter
+\* verifies the spread).  DCount = AllDelims gives every delimiter.
+QSeq == VSortSet(TCQuantDelims)
+TokCode(tok) == CASE tok = "sp" -> 1 [] tok = "dl" -> 2 [] tok = "x" -> 3 [] tok = "nul" -> 4 [] tok = "tb" -> 5 [] tok = "1" -> 6
+                  [] tok = "min" -> 7 [] tok = "m1" -> 8 [] tok = "z" -> 9 [] tok = "p1" -> 10 [] tok = "max" -> 11
+                  [] tok = "nan" -> 12 [] tok = "pinf" -> 13 [] tok = "ninf" -> 14 [] tok = "pz" -> 15 [] tok = "nz" -> 16
+                  [] tok = "fa" -> 17 [] tok = "fb" -> 18 [] tok = "fs" -> 19 [] tok = "fl" -> 20 [] tok = "fz" -> 21
+                  [] tok = "fi" -> 22 [] tok = "fd" -> 23 [] tok = "fx" -> 24 [] OTHER -> 25
+KCode(k) == CASE k = "i" -> 1 [] k = "u" -> 2 [] k = "f" -> 3 [] OTHER -> 4
+Mix(h, v) == (h * 31 + v + 1) % 7919
+RECURSIVE FoldMix(_, _)
+FoldMix(h, q) == IF q = <<>> THEN h ELSE FoldMix(Mix(h, Head(q)), Tail(q))
+ElemCodes(f, e)  == IF TCIsStr(f) THEN <<40 + Len(e)>> \o [i \in 1..Len(e) |-> TokCode(e[i])] ELSE <<TokCode(e)>>
+CellCodes(f, c)  == TCFlat([e \in 1..Len(c) |-> ElemCodes(f, c[e])])
+RowCodes(fs, r)  == TCFlat([i \in 1..Len(fs) |-> CellCodes(fs[i], r[i])]) \o <<60>>
+TableCodes(tb)   == TCFlat([i \in 1..Len(tb.fields) |-> <<KCode(tb.fields[i].k), tb.fields[i].w, TCNel(tb.fields[i]), Len(tb.fields[i].sh)>>])
+                    \o <<61>> \o TCFlat([r \in 1..Len(tb.rows) |-> RowCodes(tb.fields, tb.rows[r])])
+TableHash(tb)    == FoldMix(17, TableCodes(tb))
+DelimsFor(F, tb) == LET n == Len(QSeq)  h == TableHash(tb)
+                    IN F.DAlways \cup {QSeq[((h + 29 * j) % n) + 1] : j \in 0..(VMin2(F.DCount, n) - 1)}
+ClassDelims == {44, 9, 32}                       \* ',' tab space: one delimiter per mechanism class
+RunDelims(F, tb) == IF DelimRun = "plan" THEN DelimsFor(F, tb) ELSE ClassDelims
+
+Init == /\ phase = "start" /\ fam = "none" /\ lay = <<>> /\ t = NoTable /\ dc = "none" /\ dcd = 0 /\ txt = <<>> /\ pos = 0
         /\ ri = 0 /\ fi = 0 /\ cur = <<>> /\ acc = <<>> /\ res = Err("none yet")
 
 ChooseLayout ==
@@ -109,7 +170,7 @@ ChooseLayout ==
           LET l == [i \in 1..n |-> [name |-> Names[i], k |-> TCTypes[tys[i]].k, w |-> TCTypes[tys[i]].w,
                                     sh |-> TCShapes[shs[i]]]]
           IN LayoutOK(F, l) /\ lay' = l /\ fam' = fm
-    /\ phase' = "layout" /\ UNCHANGED <<t, dc, txt, pos, ri, fi, cur, acc, res>>
+    /\ phase' = "layout" /\ UNCHANGED <<t, dc, dcd, txt, pos, ri, fi, cur, acc, res>>
 
 ChooseRows ==
     /\ phase = "layout"
@@ -117,13 +178,15 @@ ChooseRows ==
        \E n \in 1..F.MaxRows :
           /\ CapPow(RowCard(F, lay), n, F.Cap) <= F.Cap
           /\ \E rows \in [1..n -> RowSet(F, lay)] : t' = [fields |-> lay, rows |-> rows]
-    /\ phase' = "table" /\ UNCHANGED <<fam, lay, dc, txt, pos, ri, fi, cur, acc, res>>
+    /\ phase' = "table" /\ UNCHANGED <<fam, lay, dc, dcd, txt, pos, ri, fi, cur, acc, res>>
 
 \* ---- the mechanism, one action per code step ---------------------------------------
 Write ==                                        \* Records::WriteRows
     /\ phase = "table"
-    /\ \E d \in DClasses : dc' = d
-    /\ txt' = TCWriteRows(t) /\ pos' = 1 /\ ri' = 1 /\ fi' = 1 /\ cur' = <<>> /\ acc' = <<>>
+    /\ \E c \in RunDelims(FamDefs[fam], t) :
+          /\ TCDelimClass(c) \in DClasses
+          /\ dcd' = c /\ dc' = TCDelimClass(c) /\ txt' = TCWriteRowsD(t, c, Writer)
+    /\ pos' = 1 /\ ri' = 1 /\ fi' = 1 /\ cur' = <<>> /\ acc' = <<>>
     /\ phase' = "read" /\ UNCHANGED <<fam, lay, t, res>>
 
 Advance(r) ==                                   \* after one field of read_text_columns
@@ -137,17 +200,17 @@ Advance(r) ==                                   \* after one field of read_text_
 ReadStrField ==                                 \* Records::read_ascii_bytes
     /\ phase = "read" /\ ri <= Len(t.rows) /\ TCIsStr(t.fields[fi])
     /\ Advance(TCReadCell(t.fields[fi], txt, pos, dc, Reader))
-    /\ UNCHANGED <<fam, lay, t, dc, txt>>
+    /\ UNCHANGED <<fam, lay, t, dc, dcd, txt>>
 
 ScanNumField ==                                 \* Records::scan_column_values (+ fgetc)
     /\ phase = "read" /\ ri <= Len(t.rows) /\ ~TCIsStr(t.fields[fi])
     /\ Advance(TCReadCell(t.fields[fi], txt, pos, dc, Reader))
-    /\ UNCHANGED <<fam, lay, t, dc, txt>>
+    /\ UNCHANGED <<fam, lay, t, dc, dcd, txt>>
 
 Finish ==
     /\ phase = "read" /\ ri > Len(t.rows)
     /\ phase' = "done" /\ res' = Ok(acc)
-    /\ UNCHANGED <<fam, lay, t, dc, txt, pos, ri, fi, cur, acc>>
+    /\ UNCHANGED <<fam, lay, t, dc, dcd, txt, pos, ri, fi, cur, acc>>
 
 Next == ChooseLayout \/ ChooseRows \/ Write \/ ReadStrField \/ ScanNumField \/ Finish
 NextExport == ChooseLayout \/ ChooseRows        \* enumeration only (export run)
@@ -177,10 +240,32 @@ RefAccepted == phase = "table" =>
     /\ TCAccept(t, TCRefObs(t, "sfile")) /\ TCAccept(t, TCRefObs(t, "recfile"))
     /\ "rows_count" \in TCFailing(t, [TCRefObs(t, "sfile") EXCEPT !.rows = Tail(t.rows)])
 
+\* ---- the delimiter dimension ----------------------------------------------------------
+\* the catalogue: the six delimiters of the quantifier text are inside it, the percent sign, the quotes and the
+\* backslash too; what continues a number (E x X I) is outside with what occurs in one
+CatalogueOK == phase = "start" =>
+    /\ TCListedDelims \subseteq TCQuantDelims /\ {37, 34, 39, 92, 35, 64, 126, 63, 42, 91, 123, 40, 47, 61, 95} \subseteq TCQuantDelims
+    /\ TCAmbiguousCodes \cap TCDelimUniverse = TCWrittenNumCodes \cup {69, 120, 88, 73}
+    /\ Cardinality(TCQuantDelims) = 76 /\ Len(QSeq) = 76
+    /\ \A c \in TCQuantDelims : TCDelimClass(c) \in {"plain", "tab", "space"} /\ TCDelimGroup(c) # "ambiguous"
+
+\* records.cpp passes the separator as an argument of "%s": the text of the file, in tokens, is the same
+\* whatever character the delimiter is (checked for the delimiters of the table's plan and the percent sign)
+DelimIndependent == phase = "table" =>
+    \A c \in DelimsFor(FamDefs[fam], t) \cup {37} : TCWriteRowsD(t, c, "arg") = TCWriteRows(t)
+
+\* the deviating writer (separator inside the print format) with the repaired reader: the round trip is lost
+\* exactly when the delimiter is the percent sign and some number is written after a separator
+FmtWriterCharacterised == phase = "done" => (RoundTripped <=> ~(dcd = 37 /\ TCHasLedNumber(t)))
+
 \* ---- export ------------------------------------------------------------------------
 Pred(d) == [hz |-> TCHazard(t, d), rt |-> TCRoundTrips(t, d, Reader)]
 Export ==
-    /\ (DoExport /\ phase = "start") => \A fm \in Fams : PrintT(<<"FAMILY", ToJson([name |-> fm, def |-> FamDefs[fm]])>>)
+    /\ (DoExport /\ phase = "start") =>
+          /\ \A fm \in Fams : PrintT(<<"FAMILY", ToJson([name |-> fm, def |-> FamDefs[fm]])>>)
+          /\ \A c \in TCDelimUniverse : PrintT(<<"DELIM", ToJson([code |-> c, cls |-> TCDelimClass(c), grp |-> TCDelimGroup(c),
+                                                                  quant |-> c \in TCQuantDelims])>>)
     /\ (DoExport /\ phase = "table") =>
-          PrintT(<<"CASE", ToJson([fam |-> fam, t |-> t, plain |-> Pred("plain"), tab |-> Pred("tab"), space |-> Pred("space")])>>)
+          PrintT(<<"CASE", ToJson([fam |-> fam, t |-> t, delims |-> DelimsFor(FamDefs[fam], t), led |-> TCHasLedNumber(t),
+                                   plain |-> Pred("plain"), tab |-> Pred("tab"), space |-> Pred("space")])>>)
 =============================================================================
